@@ -202,7 +202,7 @@ func runSequential(r *mon.Run, idx int, rnd *rand.Rand) seqResult {
 				model[f.id] = f
 				res.adds++
 				note(fmt.Sprintf("add c%d -> %d", f.id, got))
-				if got != len(model) && !diverged {
+				if got != len(model) && !diverged && !lostRemove {
 					if initialised {
 						r.Violation(idx, "membership-count", fmt.Sprintf("AddClient returned %d, model has %d clients", got, len(model)), payload())
 					} else {
@@ -227,7 +227,7 @@ func runSequential(r *mon.Run, idx int, rnd *rand.Rand) seqResult {
 					lostRemove = true // only selects the violation key if a removed client is called later
 				}
 				note(fmt.Sprintf("remove %d -> %d", len(drop), got))
-				if got != len(model) && !diverged {
+				if got != len(model) && !diverged && !lostRemove {
 					if initialised {
 						r.Violation(idx, "membership-count", fmt.Sprintf("RemoveClients returned %d, model has %d clients", got, len(model)), payload())
 					} else {
